@@ -11,6 +11,7 @@ CONSTANTS
   Legacy = {}
 CONSTRAINT Reached
 INVARIANT LookupOK
+INVARIANT RootOK
 INVARIANT HookOK
 INVARIANT NodesOK
 PROPERTY OutcomeOK
